@@ -257,6 +257,10 @@ void palette_mode_info(ParseCtxt *parse_ctxt, PartitionInfo *pi) {
                                                     PALETTE_SIZES,
                                                     ACCT_STR) +
                 2;
+#ifdef SVT_AV1_VERIF
+            if (mbmi->palette_size[0])
+                SVT_VERIF_EVENT(SVT_VERIF_EV_DEC_TOOL, 1, 0, 0, 0);
+#endif
             memset(parse_ctxt->palette_colors[AOM_PLANE_Y],
                    0,
                    mbmi->palette_size[0] * sizeof(uint16_t));
@@ -274,6 +278,10 @@ void palette_mode_info(ParseCtxt *parse_ctxt, PartitionInfo *pi) {
                                                     PALETTE_SIZES,
                                                     ACCT_STR) +
                 2;
+#ifdef SVT_AV1_VERIF
+            if (mbmi->palette_size[1])
+                SVT_VERIF_EVENT(SVT_VERIF_EV_DEC_TOOL, 1, 0, 0, 0);
+#endif
             memset(parse_ctxt->palette_colors[AOM_PLANE_U],
                    0,
                    mbmi->palette_size[1] * sizeof(uint16_t));
@@ -306,6 +314,10 @@ void filter_intra_mode_info(ParseCtxt *parse_ctxt, PartitionInfo *xd) {
     if (filter_intra_allowed(parse_ctxt, mbmi)) {
         filter_intra_mode_info->use_filter_intra = svt_read_symbol(
             r, frm_ctx->filter_intra_cdfs[mbmi->sb_type], 2, ACCT_STR);
+#ifdef SVT_AV1_VERIF
+        if (filter_intra_mode_info->use_filter_intra)
+            SVT_VERIF_EVENT(SVT_VERIF_EV_DEC_TOOL, 4, 0, 0, 0);
+#endif
         if (filter_intra_mode_info->use_filter_intra) {
             filter_intra_mode_info->filter_intra_mode = svt_read_symbol(
                 r, frm_ctx->filter_intra_mode_cdf, FILTER_INTRA_MODES, ACCT_STR);
@@ -639,6 +651,10 @@ void intra_frame_mode_info(EbDecHandle *dec_handle, ParseCtxt *parse_ctxt, Parti
     mbmi->use_intrabc = 0;
     if (allow_intrabc(dec_handle))
         mbmi->use_intrabc = svt_read_symbol(r, parse_ctxt->cur_tile_ctx.intrabc_cdf, 2, ACCT_STR);
+#ifdef SVT_AV1_VERIF
+        if (mbmi->use_intrabc)
+            SVT_VERIF_EVENT(SVT_VERIF_EV_DEC_TOOL, 2, 0, 0, 0);
+#endif
 
     mbmi->inter_inter_compound.type = COMPOUND_AVERAGE;
 
@@ -675,6 +691,9 @@ void intra_frame_mode_info(EbDecHandle *dec_handle, ParseCtxt *parse_ctxt, Parti
                                                is_cfl_allowed(xd, &color_config, lossless_array),
                                                mbmi->mode);
             if (mbmi->uv_mode == UV_CFL_PRED) {
+#ifdef SVT_AV1_VERIF
+                SVT_VERIF_EVENT(SVT_VERIF_EV_DEC_TOOL, 8, 0, 0, 0);
+#endif
                 mbmi->cfl_alpha_idx = read_cfl_alphas(
                     &parse_ctxt->cur_tile_ctx, r, &mbmi->cfl_alpha_signs);
             }
@@ -1119,6 +1138,9 @@ void intra_block_mode_info(ParseCtxt *parse_ctxt, PartitionInfo *xd) {
                                            is_cfl_allowed(xd, color_cfg, lossless_array),
                                            mbmi->mode);
         if (mbmi->uv_mode == UV_CFL_PRED) {
+#ifdef SVT_AV1_VERIF
+            SVT_VERIF_EVENT(SVT_VERIF_EV_DEC_TOOL, 8, 0, 0, 0);
+#endif
             mbmi->cfl_alpha_idx = read_cfl_alphas(
                 &parse_ctxt->cur_tile_ctx, r, &mbmi->cfl_alpha_signs);
         }
@@ -1268,18 +1290,6 @@ void mode_info(EbDecHandle *dec_handle, PartitionInfo *part_info, ParseCtxt *par
         inter_frame_mode_info(dec_handle, parse_ctxt, part_info);
         inter_copy_frame_mvs(dec_handle, mi, mi_row, mi_col, x_mis, y_mis);
     }
-#ifdef SVT_AV1_VERIF
-    /* which coding tools the parsed syntax of this block uses (bit mask) */
-    SVT_VERIF_EVENT(SVT_VERIF_EV_DEC_TOOL,
-                    ((mi->palette_size[0] || mi->palette_size[1]) ? 1 : 0) | (mi->use_intrabc ? 2 : 0) |
-                        (mi->filter_intra_mode_info.use_filter_intra ? 4 : 0) |
-                        ((!mi->use_intrabc && mi->ref_frame[0] <= INTRA_FRAME && mi->uv_mode == UV_CFL_PRED) ? 8 : 0) |
-                        ((mi->ref_frame[0] > INTRA_FRAME && mi->is_inter_intra) ? 16 : 0) |
-                        ((mi->ref_frame[0] > INTRA_FRAME && mi->motion_mode == OBMC_CAUSAL) ? 32 : 0) |
-                        ((mi->ref_frame[0] > INTRA_FRAME && mi->motion_mode == WARPED_CAUSAL) ? 64 : 0) |
-                        ((mi->ref_frame[0] > INTRA_FRAME && (mi->mode == GLOBALMV || mi->mode == GLOBAL_GLOBALMV)) ? 128 : 0),
-                    frame_info->frame_type, mi_row, mi_col);
-#endif
 }
 
 TxSize read_tx_size(ParseCtxt *parse_ctxt, PartitionInfo *xd, int allow_select) {
